@@ -97,6 +97,71 @@ impl Mon {
         }
     }
 
+    /// The program's own valuations (health cache written by the permissionless pulse) against the
+    /// reference, by sign only and only where the reference is certain: an account the reference
+    /// holds healthy at a level must not be unhealthy at that level in the program's own numbers,
+    /// and vice versa (C04: health computed with weights, e-mode and caps; C13: passing the initial
+    /// check implies passing maintenance; C14: reduce-only deposits keep counting for liquidation).
+    pub fn pulse_on_ix(&mut self, v: &IxView, info: &IxInfo) {
+        let (ak, aq) = match info.accts.first() {
+            Some((k, _, Some(q))) => (k, q),
+            _ => return,
+        };
+        let c = &aq.health_cache;
+        // engine ok (2) and oracle ok (4), written now
+        if c.timestamp != info.now || c.flags & 2 == 0 || c.flags & 4 == 0 {
+            self.r.count("pulse.cache_not_usable");
+            return;
+        }
+        if aq.account_flags & (ACCOUNT_IN_FLASHLOAN | ACCOUNT_IN_RECEIVERSHIP) != 0 {
+            return;
+        }
+        let pos = positions(v, aq, true);
+        if pos.is_empty() {
+            return;
+        }
+        let levels = [("initial", Req::Initial, w_(&c.asset_value) - w_(&c.liability_value)), ("maintenance", Req::Maint, w_(&c.asset_value_maint) - w_(&c.liability_value_maint)), ("equity", Req::Equity, w_(&c.asset_value_equity) - w_(&c.liability_value_equity))];
+        for (name, req, prog) in levels.iter() {
+            let h = refm::ref_health(&pos, *req, info.now);
+            if h.must_error.is_some() || h.borderline || h.bad_collateral_oracles > 0 {
+                self.r.count("pulse.reference_not_certain");
+                continue;
+            }
+            let hv = h.health();
+            self.r.eval();
+            self.r.count(&format!("pulse.health_signs_compared/{}", name));
+            self.r.distinct(&("pulse", *name, feat(&h), hv.certainly_pos(), hv.certainly_neg()));
+            // a margin of four error bands keeps rounding inside the program out of the verdict
+            let wide = &hv.e * ri(4) + ulp() * ri(1 << 20);
+            // which properties speak about this level: the initial health is the risk gate (C04) and
+            // the premise of C13's consequence; the maintenance health is its conclusion ("never
+            // immediately liquidatable"); the equity view decides bankruptcy (C07); C14 requires
+            // that deposits of a reduce-only bank keep counting for liquidation purposes
+            // (maintenance and equity)
+            let holds = |f: &dyn Fn(&PosIn) -> bool| pos.iter().any(|p| w_(&p.balance.asset_shares) >= one() && f(p));
+            let iso_dep = holds(&|p| p.bank.config.risk_tier == RiskTier::Isolated);
+            let ro_dep = holds(&|p| p.bank.config.operational_state == BankOperationalState::ReduceOnly);
+            let mut props: Vec<&str> = match *name {
+                "initial" => vec!["C04", "C13"],
+                "maintenance" => vec!["C13"],
+                _ => vec!["C07"],
+            };
+            if ro_dep && *name != "initial" && !iso_dep {
+                props.push("C14");
+            }
+            // a deposit in an isolated-tier bank is an asset of the account (equity) although it is
+            // worth nothing as collateral: kept apart because the program values it at zero for
+            // equity as well (finding F9)
+            let suffix = if iso_dep && *name == "equity" { "/account-holds-isolated-tier-deposit" } else { "" };
+            if hv.v > wide && prog.is_negative() && abs(prog) > wide {
+                self.both(&props, &format!("Cxx/PulseHealth/{}-health-negative-in-the-program-although-positive-by-reference{}", name, suffix), format!("account {}: program {} reference {} (+-{}) assets {} liabs {}", ak, show(prog), show(&hv.v), show(&hv.e), show(&h.assets.v), show(&h.liabs.v)));
+            }
+            if hv.v < -wide.clone() && prog.is_positive() && abs(prog) > wide {
+                self.both(&props, &format!("Cxx/PulseHealth/{}-health-positive-in-the-program-although-negative-by-reference", name), format!("account {}: program {} reference {} (+-{}) assets {} liabs {}", ak, show(prog), show(&hv.v), show(&hv.e), show(&h.assets.v), show(&h.liabs.v)));
+            }
+        }
+    }
+
     fn both(&mut self, props: &[&str], sig: &str, detail: String) {
         for p in props {
             let s = sig.replacen("Cxx", p, 1);
